@@ -148,7 +148,9 @@ def plain(e):
 TEMPLATES = ["x", "", "$$", "$&", "$`", "$'", "$1", "$2", "$01", "$10", "$0", "$", "$$$&", "[$1|$2]", "$<n>", "a$&b$`c$'d", "$1$1", "\\$&", "$9", "$00"]
 REPLACERS = ["function (m) { return '<' + m + '>'; }", "function (m, a, b) { return typeof a + ':' + typeof b; }",
              "function () { return '$&'; }", "function () { L.push([].slice ? arguments.length : 0); return 'r'; }",
-             "function (m) { return undefined; }", "function (m) { return 7; }"]
+             "function (m) { return undefined; }", "function (m) { return 7; }",
+             # built-in functions and constructors are functions too
+             "String", "Number", "Boolean", "Array", "Math.abs", "parseInt", "JSON.stringify", "String.fromCharCode", "isNaN"]
 LIMITS = ["undefined", "0", "1", "2", "-1", "NaN", "1.9", "4294967297", '"2"', "Infinity"]
 
 
